@@ -136,7 +136,10 @@ class Resource(_ExposesWellknownAttributes, interfaces.Resource):
                 response_default = Code.DELETED
             else:
                 response_default = Code.CHANGED
-            response.code = response_default
+            # On a copy: the handler may keep its code-less response and
+            # return the same object for a request of another method, whose
+            # default is a different one
+            response = response.copy(code=response_default)
 
         if response.opt.no_response is None and request.opt.no_response is not None:
             # The note goes on a copy: the handler may keep its response and
